@@ -3,6 +3,7 @@
 //! notifications, method notifications, each delivered singly or grouped into arrays in every way;
 //! subscribe / unsubscribe / drop at every position; buffer sizes 1..4; numeric and string ids.
 use jrpc_harness::client_mock::*;
+use jrpc_harness::client_spell::*;
 use jrpc_harness::common::*;
 use serde_json::Value;
 use std::collections::BTreeMap;
@@ -34,6 +35,10 @@ struct StreamInfo {
 	unsub_wires: usize,
 	/// the gate was shut at some point while this stream was live (the send task may have been blocked)
 	gate_was_shut: bool,
+	/// the consumer ended the stream (drop / unsubscribe) while the send task was free
+	ended_with_gate_open: bool,
+	/// a notification for the stream arrived after the consumer had dropped it
+	notified_after_end: bool,
 	routing: bool,
 	saw_end: bool,
 }
@@ -57,8 +62,15 @@ fn canon(s: &str) -> String {
 /// (subscription id, Some(result) | None for close) of a subscription notification object
 fn sub_notif(v: &Value) -> Option<(String, Option<String>)> {
 	let o = v.as_object()?;
-	if o.contains_key("id") && (o.contains_key("result") || o.contains_key("error")) {
-		return None; // a response
+	if msg_kind(v) != MsgKind::Notification {
+		return None; // a response (whatever else it carries) or nothing at all
+	}
+	// `SubscriptionPayload` is a derived struct: by name, or by position `[subscription, result]`
+	if let Some(a) = o.get("params").and_then(|p| p.as_array()) {
+		if a.len() == 2 && (a[0].is_u64() || a[0].is_string()) {
+			return Some((a[0].to_string(), Some(a[1].to_string())));
+		}
+		return None;
 	}
 	let p = o.get("params")?.as_object()?;
 	let sid = p.get("subscription")?;
@@ -88,6 +100,9 @@ impl Oracle {
 					if s.sid.as_deref() == Some(sid.as_str()) && s.routing {
 						match &payload {
 							Some(p) => {
+								if s.consumer == Ended::Dropped {
+									s.notified_after_end = true;
+								}
 								s.sent.push(p.clone());
 								if s.consumer == Ended::No || s.consumer == Ended::Unsubscribed {
 									if s.occupancy < self.cap {
@@ -108,7 +123,7 @@ impl Oracle {
 					}
 				}
 			} else if let Some(o) = e.as_object() {
-				if let (Some(Value::String(m)), false) = (o.get("method"), o.contains_key("id")) {
+				if let (Some(Value::String(m)), true) = (o.get("method"), msg_kind(&e) == MsgKind::Notification) {
 					let payload = o.get("params").filter(|p| !p.is_null()).map(|p| p.to_string()).unwrap_or("null".into());
 					for s in self.streams.values_mut() {
 						if s.method.as_deref() == Some(m.as_str()) && s.routing {
@@ -184,7 +199,7 @@ fn run_one(out: &mut Out, lines: &[String], fam: &mut BTreeMap<u64, Vec<(usize, 
 		let names_before: Vec<String> = orc.streams.values().filter(|s| s.routing).filter_map(|s| s.method.clone()).collect();
 		if w[0] == "cl" && obs.literal.is_none() && !dead {
 			match w[1] {
-				"call" | "batch" => orc.n_ops += 1,
+				"call" | "batch" | "tbatch" => orc.n_ops += 1,
 				"subscribe" => {
 					orc.sub_ops.push(orc.n_ops);
 					orc.n_ops += 1;
@@ -223,6 +238,14 @@ fn run_one(out: &mut Out, lines: &[String], fam: &mut BTreeMap<u64, Vec<(usize, 
 				}
 				_ => {}
 			}
+			if w[1] == "deliverx" {
+				nontrivial = true;
+				out.count("near-miss.delivered");
+				if obs.fatal.is_none() || obs.next.is_some() || !obs.comps.is_empty() {
+					verdict = Err(format!("a text that is no legal message was accepted: {}", obs.render()));
+				}
+				dead = true;
+			}
 			if w[1] == "deliver" {
 				let text = String::from_utf8(unhex(w[2])).unwrap_or_default();
 				// acceptance of a subscribe in this very line: routing starts after it
@@ -253,7 +276,7 @@ fn run_one(out: &mut Out, lines: &[String], fam: &mut BTreeMap<u64, Vec<(usize, 
 				let mut name: Option<String> = None;
 				for l in lines.iter().skip(1) {
 					let ww: Vec<&str> = l.split(' ').collect();
-					if matches!(ww.get(1), Some(&"call") | Some(&"batch") | Some(&"subscribe") | Some(&"regnotif")) {
+					if matches!(ww.get(1), Some(&"call") | Some(&"batch") | Some(&"tbatch") | Some(&"subscribe") | Some(&"regnotif")) {
 						if k == *op && ww[1] == "regnotif" {
 							name = String::from_utf8(unhex(ww[2])).ok();
 						}
@@ -280,7 +303,7 @@ fn run_one(out: &mut Out, lines: &[String], fam: &mut BTreeMap<u64, Vec<(usize, 
 					let mut k = 0usize;
 					for l in lines.iter().skip(1) {
 						let ww: Vec<&str> = l.split(' ').collect();
-						if matches!(ww.get(1), Some(&"call") | Some(&"batch") | Some(&"subscribe") | Some(&"regnotif")) {
+						if matches!(ww.get(1), Some(&"call") | Some(&"batch") | Some(&"tbatch") | Some(&"subscribe") | Some(&"regnotif")) {
 							if k == *op && ww[1] == "regnotif" {
 								let m = String::from_utf8(unhex(ww[2])).unwrap_or_default();
 								orc.streams.insert(*op, new_stream(None, Some(m), true));
@@ -333,6 +356,7 @@ fn run_one(out: &mut Out, lines: &[String], fam: &mut BTreeMap<u64, Vec<(usize, 
 					let op: usize = w[2].parse().unwrap_or(0);
 					if let Some(s) = orc.streams.get_mut(&op) {
 						s.consumer = Ended::Dropped;
+						s.ended_with_gate_open = orc.gate_open;
 						out.count("stream.drop");
 						// a method stream tells the back end at once when the request queue has room
 						if s.method.is_some() && orc.gate_open {
@@ -364,12 +388,16 @@ fn run_one(out: &mut Out, lines: &[String], fam: &mut BTreeMap<u64, Vec<(usize, 
 	});
 	// end of case: exactly-one clauses (only when the connection is alive and the send task never was blocked,
 	// i.e. the client's request queue always had room)
-	if !dead && !orc.ever_shut {
+	if !dead && (!orc.ever_shut || orc.gate_open) {
 		for (op, s) in &orc.streams {
 			if s.sid.is_none() {
 				continue;
 			}
-			let want_one = (s.consumer == Ended::Unsubscribed || s.consumer == Ended::Dropped || s.lag_seen) && !s.closed_by_server;
+			// with the send task blocked at some point: `Drop` may have found the request queue full (then the next
+			// notification for the stream triggers the unsubscribe); everything else is queued with back-pressure and
+			// has gone out by the time the gate is open again
+			let dropped_for_sure = s.consumer == Ended::Dropped && (!orc.ever_shut || s.ended_with_gate_open || s.notified_after_end);
+			let want_one = (s.consumer == Ended::Unsubscribed || dropped_for_sure || s.lag_seen) && !s.closed_by_server;
 			// if the server closed it first, nothing needs to be sent; if the close came after our unsubscribe, one was sent
 			if want_one && s.unsub_wires != 1 {
 				let last = recs.len() - 1;
@@ -418,6 +446,8 @@ fn new_stream(sid: Option<String>, method: Option<String>, gate_shut: bool) -> S
 		consumer: Ended::No,
 		unsub_wires: 0,
 		gate_was_shut: gate_shut,
+		ended_with_gate_open: false,
+		notified_after_end: false,
 		routing: true,
 		saw_end: false,
 	}
@@ -442,6 +472,31 @@ fn mnotif(m: &str, v: Option<u64>) -> String {
 		None => format!("{{\"jsonrpc\":\"2.0\",\"method\":\"{m}\"}}"),
 	}
 }
+/// a method notification whose `params` has one of the other legal shapes
+fn mnotif_shaped(rng: &mut Rng, m: &str, v: u64) -> String {
+	let p = match rng.below(8) {
+		0 => "null".to_string(),
+		1 => "[]".to_string(),
+		2 => "{}".to_string(),
+		3 => format!("{{\"v\":{v},\"extra\":[1,2]}}"),
+		4 => format!("[{v},{v},{v}]"),
+		5 => format!("\"text {v}\""),
+		6 => format!("{{\"subscription\":true,\"result\":{v}}}"),
+		_ => odd_result(rng),
+	};
+	format!("{{\"jsonrpc\":\"2.0\",\"method\":\"{m}\",\"params\":{p}}}")
+}
+/// a subscription notification spelled in one of the other legal ways: members of `params` in the other order,
+/// extra members inside `params`, another `method`, the payload by position
+fn push_shaped(rng: &mut Rng, sid: &str, v: u64) -> String {
+	match rng.below(5) {
+		0 => format!("{{\"jsonrpc\":\"2.0\",\"method\":\"sub\",\"params\":{{\"result\":{v},\"subscription\":{sid}}}}}"),
+		1 => format!("{{\"jsonrpc\":\"2.0\",\"method\":\"sub\",\"params\":{{\"subscription\":{sid},\"extra\":{{\"result\":0}},\"result\":{v},\"x\":1,\"x\":2}}}}"),
+		2 => format!("{{\"jsonrpc\":\"2.0\",\"method\":\"whatever\",\"params\":{{\"subscription\":{sid},\"result\":{v}}}}}"),
+		3 => format!("{{\"jsonrpc\":\"2.0\",\"method\":\"sub\",\"params\":[{sid},{v}]}}"),
+		_ => format!("{{\"params\":{{\"subscription\":{sid},\"result\":{}}},\"method\":\"sub\",\"jsonrpc\":\"2.0\"}}", odd_result(rng)),
+	}
+}
 
 #[derive(Clone)]
 struct GStream {
@@ -458,6 +513,8 @@ struct Gen {
 	mstreams: Vec<(usize, String, bool)>,
 	counter: u64,
 	sid_counter: u64,
+	/// names of the generator branches taken (distribution counters)
+	counts: Vec<&'static str>,
 }
 
 impl Gen {
@@ -476,8 +533,17 @@ impl Gen {
 		let op = self.next_op;
 		self.next_op += 1;
 		if accept {
-			let sid = if !self.streams.is_empty() && rng.chance(1, 15) { self.streams[rng.below(self.streams.len() as u64) as usize].sid.clone() } else { self.new_sid(rng) };
-			let dup = self.streams.iter().any(|s| s.sid == sid);
+			// the second time: the server hands out an id again — preferably one whose stream the client has ended
+			let ended: Vec<String> = self.streams.iter().filter(|s| !s.live).map(|s| s.sid.clone()).collect();
+			let sid = if !ended.is_empty() && rng.chance(1, 4) {
+				self.counts.push("second.resubscribe-same-sid");
+				rng.pick(&ended).clone()
+			} else if !self.streams.is_empty() && rng.chance(1, 15) {
+				self.streams[rng.below(self.streams.len() as u64) as usize].sid.clone()
+			} else {
+				self.new_sid(rng)
+			};
+			let dup = self.streams.iter().any(|s| s.sid == sid && s.live);
 			lines.push(format!("cl deliver {}", hexs(&format!("{{\"jsonrpc\":\"2.0\",\"id\":{},\"result\":{sid}}}", idj(id, self.str_ids)))));
 			if !dup {
 				self.streams.push(GStream { op, sid, live: true });
@@ -495,7 +561,13 @@ impl Gen {
 		match rng.below(12) {
 			0..=6 if !known.is_empty() => {
 				let sid = rng.pick(&known).clone();
-				push(&sid, self.value())
+				let v = self.value();
+				if rng.chance(1, 4) {
+					self.counts.push("spell.subscription-notification-shaped");
+					push_shaped(rng, &sid, v)
+				} else {
+					push(&sid, v)
+				}
 			}
 			7 => push(if rng.chance(1, 2) { "\"nobody\"" } else { "424242" }, self.value()),
 			8 if !known.is_empty() => {
@@ -505,30 +577,58 @@ impl Gen {
 			9 | 10 => {
 				let m = if self.mstreams.is_empty() || rng.chance(1, 4) { "stranger".to_string() } else { self.mstreams[rng.below(self.mstreams.len() as u64) as usize].1.clone() };
 				let v = if rng.chance(1, 5) { None } else { Some(self.value()) };
-				mnotif(&m, v)
+				if rng.chance(1, 4) {
+					self.counts.push("spell.notification-params-shaped");
+					let x = self.value();
+					mnotif_shaped(rng, &m, x)
+				} else {
+					mnotif(&m, v)
+				}
 			}
 			_ => push("\"nobody\"", self.value()),
 		}
 	}
 }
 
-fn gen_random_case(rng: &mut Rng, caseno: u64) -> Vec<String> {
+fn gen_random_case(rng: &mut Rng, out: &mut Out, caseno: u64) -> Vec<String> {
 	let str_ids = rng.chance(1, 3);
 	let cap = rng.range(1, 4);
-	let fcap = if rng.chance(1, 8) { rng.range(1, 3) } else { 64 };
-	let mut lines = vec![format!("case {caseno} client {} {cap} {fcap}", if str_ids { "str" } else { "num" })];
-	let mut g = Gen { str_ids, next_id: 0, next_op: 0, streams: vec![], mstreams: vec![], counter: 0, sid_counter: 0 };
+	let fcap = pick_fcap(rng, |k| out.count(k));
+	let opts = case_opts(rng, |k| out.count(k));
+	let mut lines = vec![format!("case {caseno} client {} {cap} {fcap}{opts}", if str_ids { "str" } else { "num" })];
+	let mut g = Gen { str_ids, next_id: 0, next_op: 0, streams: vec![], mstreams: vec![], counter: 0, sid_counter: 0, counts: vec![] };
 	let mut gate_open = true;
 	g.subscribe(rng, &mut lines, true);
 	let n = rng.range(6, 18);
 	for _ in 0..n {
-		match rng.below(20) {
+		match rng.below(24) {
+			20 => {
+				out.count("api.notification");
+				lines.push("cl notify".into());
+				g.next_id += 1;
+			}
+			21 => {
+				out.count("api.batch");
+				let n = rng.range(1, 3);
+				if rng.chance(1, 2) { lines.push(format!("cl batch {n}")) } else { lines.push(format!("cl tbatch {} {n}", rng.pick(&TYPED_KINDS))) }
+				if gate_open && rng.chance(1, 2) {
+					let es: Vec<String> = (0..n).map(|i| format!("{{\"jsonrpc\":\"2.0\",\"id\":{},\"result\":{i}}}", idj(g.next_id + i, str_ids))).collect();
+					lines.push(format!("cl deliver {}", hexs(&format!("[{}]", es.join(",")))));
+				}
+				g.next_id += 1;
+				g.next_op += 1;
+			}
+			22 | 23 => {
+				out.count("api.is_connected");
+				lines.push("cl connected".into());
+			}
 			0 => {
 				let acc = rng.chance(5, 6);
 				g.subscribe(rng, &mut lines, acc)
 			}
 			1 => {
-				let m = format!("m{}", rng.below(2));
+				// (also a handler for the method name the server's subscription notifications carry)
+				let m = (*rng.pick(&["m0", "m1", "sub"])).to_string();
 				lines.push(format!("cl regnotif {}", hexs(&m)));
 				if !g.mstreams.iter().any(|x| x.1 == m && x.2) && gate_open {
 					g.mstreams.push((g.next_op, m, true));
@@ -605,6 +705,18 @@ fn gen_random_case(rng: &mut Rng, caseno: u64) -> Vec<String> {
 	if !gate_open {
 		lines.push("cl gate open".into());
 	}
+	for c in g.counts.drain(..) {
+		out.count(c);
+	}
+	// one case in eight ends on a text that is no message at all
+	if rng.chance(1, 8) {
+		let pending = rng.below(g.next_id.max(1));
+		let (name, text) = near_miss(rng, &idj(pending, str_ids));
+		out.count(name);
+		lines.push(format!("cl deliverx {}", hexs(&text)));
+		lines.push("cl connected".into());
+		return lines;
+	}
 	// drain what is left
 	let live: Vec<usize> = g.streams.iter().filter(|s| s.live).map(|s| s.op).chain(g.mstreams.iter().filter(|m| m.2).map(|m| m.0)).collect();
 	for op in live {
@@ -612,6 +724,55 @@ fn gen_random_case(rng: &mut Rng, caseno: u64) -> Vec<String> {
 			lines.push(format!("cl next {op}"));
 		}
 	}
+	lines
+}
+
+/// A subscription ends on the client side while the send task is blocked and the request queue is full — dropped
+/// (the `SubscriptionClosed` of `Drop` is lost, the next notification for it has to trigger the unsubscribe) or
+/// lag-closed (the read task parks the message) — and exactly one unsubscribe request must follow once the gate opens.
+fn gen_full_queue_sub_case(rng: &mut Rng, caseno: u64) -> Vec<String> {
+	let str_ids = rng.chance(1, 3);
+	let cap = rng.range(1, 3);
+	let fcap = rng.range(1, 2);
+	let mut lines = vec![format!("case {caseno} client {} {cap} {fcap}", if str_ids { "str" } else { "num" })];
+	let sid = if rng.chance(1, 2) { "\"Q\"".to_string() } else { "77".to_string() };
+	lines.push("cl subscribe".into());
+	lines.push(format!("cl deliver {}", hexs(&format!("{{\"jsonrpc\":\"2.0\",\"id\":{},\"result\":{sid}}}", idj(0, str_ids)))));
+	let mut v = 0u64;
+	if rng.chance(1, 2) {
+		v += 1;
+		lines.push(format!("cl deliver {}", hexs(&push(&sid, v))));
+		lines.push("cl next 0".into());
+	}
+	lines.push("cl gate shut".into());
+	for _ in 0..fcap + 1 + rng.below(2) {
+		lines.push(if rng.chance(1, 4) { "cl notify".to_string() } else { "cl call".to_string() });
+	}
+	let by_lag = rng.chance(1, 2);
+	if by_lag {
+		// overflow the buffer while the queue is full; sometimes nothing more arrives for the stream afterwards
+		for _ in 0..cap + 1 {
+			v += 1;
+			lines.push(format!("cl deliver {}", hexs(&push(&sid, v))));
+		}
+	} else {
+		lines.push("cl drop 0".into());
+		if rng.chance(1, 2) {
+			v += 1;
+			lines.push(format!("cl deliver {}", hexs(&push(&sid, v))));
+		}
+	}
+	lines.push("cl gate open".into());
+	for _ in 0..if by_lag { rng.below(2) } else { 1 + rng.below(2) } {
+		v += 1;
+		lines.push(format!("cl deliver {}", hexs(&push(&sid, v))));
+	}
+	if by_lag {
+		for _ in 0..cap + 2 {
+			lines.push("cl next 0".into());
+		}
+	}
+	lines.push("cl connected".into());
 	lines
 }
 
@@ -672,6 +833,20 @@ fn gen_replacement_case(rng: &mut Rng, caseno: u64) -> Vec<String> {
 		lines.push(format!("cl {} {b}", if rng.chance(1, 2) { "drop" } else { "unsub" }));
 	}
 	lines
+}
+
+/// every `cl deliver` line of a case, half of them in another spelling
+fn respell_delivers(rng: &mut Rng, lines: Vec<String>, out: &mut Out) -> Vec<String> {
+	lines
+		.into_iter()
+		.map(|l| match l.strip_prefix("cl deliver ") {
+			Some(h) => {
+				let text = String::from_utf8(unhex(h)).unwrap_or_default();
+				deliver_line(rng, &text, |k| out.count(k))
+			}
+			None => l,
+		})
+		.collect()
 }
 
 /// all compositions of `n` (ordered ways to write n as a sum of positive parts)
@@ -753,13 +928,22 @@ fn main() {
 		// packing families (case numbers >= 2_000_000): every grouping of one push sequence
 		let fams = if a.tier == "thorough" { 400 } else { 40 };
 		for f in 0..fams {
-			gen_packing_family(&mut rng, 2000 + f, &mut lines, if a.tier == "thorough" { 6 } else { 5 });
+			let mut fl: Vec<String> = vec![];
+			gen_packing_family(&mut rng, 2000 + f, &mut fl, if a.tier == "thorough" { 6 } else { 5 });
+			lines.extend(respell_delivers(&mut rng, fl, &mut out));
 		}
 		for i in 0..n {
-			lines.extend(gen_random_case(&mut rng, i + 1));
+			let ls = gen_random_case(&mut rng, &mut out, i + 1);
+			lines.extend(respell_delivers(&mut rng, ls, &mut out));
 		}
 		for i in 0..n / 6 {
-			lines.extend(gen_replacement_case(&mut rng, 1_500_000 + i));
+			let ls = gen_replacement_case(&mut rng, 1_500_000 + i);
+			lines.extend(respell_delivers(&mut rng, ls, &mut out));
+		}
+		for i in 0..n / 6 {
+			out.count("family.full-queue-subscription-end");
+			let ls = gen_full_queue_sub_case(&mut rng, 1_600_000 + i);
+			lines.extend(respell_delivers(&mut rng, ls, &mut out));
 		}
 	}
 	let mut fam = BTreeMap::new();
